@@ -568,4 +568,111 @@ theorem readByte_sim {c : Cfg} (hv : c.Valid) {s : Stream} {cu : Cursor} (h : Si
     rw [hval, hcv]
     exact readByteBody_sim hv h0
 
+/-! ### end_of_stream after a peek (read + unread) -/
+
+/-- end_of_stream after ReadRune+UnreadRune (initRead already done): unchanged, except that an end of
+    file that was seen turns `not` into `at` -/
+theorem peekRuneBody_eos {c : Cfg} {s : Stream} {cu : Cursor} (h : Sim c s cu) :
+    (unreadRune c (readRuneBody c s).2).endOfStream =
+      if c.typ ≠ .text then s.endOfStream
+      else if cu.idx < c.src.length then .not
+      else if s.endOfStream = .past then .past else .at := by
+  by_cases ht : c.typ ≠ .text
+  · have hval : readRuneBody c s = (.err .wrongType, s) := by unfold readRuneBody; rw [if_pos ht]
+    have : unreadRune c s = s := by unfold unreadRune; rw [if_pos ht]
+    rw [hval, this, if_pos ht]
+  · rw [if_neg ht]
+    by_cases hu : s.eofUnread = true
+    · have hat := h.unread_at hu
+      have hidx : cu.idx = c.src.length := h.end_of (by rw [hat]; decide)
+      have hval : readRuneBody c s = (.eof, readEOF { s with lastRuneSize := 0 }) := by
+        unfold readRuneBody; rw [if_neg ht, if_pos hu]
+      have : unreadRune c (readEOF { s with lastRuneSize := 0 }) =
+          unreadEOF { readEOF { s with lastRuneSize := 0 } with lastRead := .none } := by
+        unfold unreadRune; rw [if_neg ht]; rfl
+      rw [hval, this, if_neg (by omega), hat]
+      simp [unreadEOF]
+    · obtain ⟨hbinv, hok, heof⟩ := bufReadRune_spec (c := c) h.buf
+      by_cases hlt : cu.idx < c.src.length
+      · have hlt' : s.buf.cur < c.src.length := by rw [h.cur_eq]; exact hlt
+        obtain ⟨hr, hcur, hlrs⟩ := hok hlt'
+        generalize hd : decodeRune (c.src.drop s.buf.cur) = d at *
+        generalize hp : bufReadRune c.src c.rd s.buf = p at *
+        obtain ⟨r, b⟩ := p
+        simp only at hr hcur hlrs hbinv
+        subst hr
+        have hval : readRuneBody c s =
+            (.ok d, checkEOS c (setLastRead { s with buf := b, position := s.position + d.2, lastRuneSize := d.2 } .ok) false) := by
+          unfold readRuneBody; rw [if_neg ht, if_neg hu, hp]
+        rw [hval, if_pos hlt]
+        rw [unreadRune_ok c _ ht (by simp) d.2 (by simpa using hlrs) (by simp; omega)]
+      · have hnlt : ¬ s.buf.cur < c.src.length := by rw [h.cur_eq]; exact hlt
+        obtain ⟨hr, _, _, _⟩ := heof hnlt
+        generalize hp : bufReadRune c.src c.rd s.buf = p at *
+        obtain ⟨r, b⟩ := p
+        simp only at hr
+        subst hr
+        have hval : readRuneBody c s =
+            (.eof, checkEOS c (setLastRead { s with buf := b, lastRuneSize := 0 } .eof) true) := by
+          unfold readRuneBody; rw [if_neg ht, if_neg hu, hp]
+        rw [hval, if_neg hlt]
+        by_cases hpast : s.endOfStream = .past
+        · have hlr : (checkEOS c (setLastRead { s with buf := b, lastRuneSize := 0 } .eof) true).lastRead = .none := by
+            simp [checkEOS, setLastRead, hpast]
+          rw [unreadRune_of_none _ _ hlr, if_pos hpast]; rfl
+        · rw [if_neg hpast]
+          unfold unreadRune; rw [if_neg ht]
+          simp [checkEOS, setLastRead, hpast, unreadEOF]
+
+theorem peekByteBody_eos {c : Cfg} {s : Stream} {cu : Cursor} (h : Sim c s cu) :
+    (unreadByte c (readByteBody c s).2).endOfStream =
+      if c.typ ≠ .binary then s.endOfStream
+      else if cu.idx < c.src.length then .not
+      else if s.endOfStream = .past then .past else .at := by
+  by_cases ht : c.typ ≠ .binary
+  · have hval : readByteBody c s = (.err .wrongType, s) := by unfold readByteBody; rw [if_pos ht]
+    have : unreadByte c s = s := by unfold unreadByte; rw [if_pos ht]
+    rw [hval, this, if_pos ht]
+  · rw [if_neg ht]
+    by_cases hu : s.eofUnread = true
+    · have hat := h.unread_at hu
+      have hidx : cu.idx = c.src.length := h.end_of (by rw [hat]; decide)
+      have hval : readByteBody c s = (.eof, readEOF s) := by
+        unfold readByteBody; rw [if_neg ht, if_pos hu]
+      have : unreadByte c (readEOF s) = unreadEOF { readEOF s with lastRead := .none } := by
+        unfold unreadByte; rw [if_neg ht]; rfl
+      rw [hval, this, if_neg (by omega), hat]
+      simp [unreadEOF]
+    · obtain ⟨hbinv, hok, heof⟩ := bufReadByte_spec (c := c) h.buf
+      by_cases hlt : cu.idx < c.src.length
+      · have hlt' : s.buf.cur < c.src.length := by rw [h.cur_eq]; exact hlt
+        obtain ⟨x, hx⟩ := getElem?_of_lt c.src s.buf.cur hlt'
+        obtain ⟨hr, hcur, hlb⟩ := hok x hx
+        generalize hp : bufReadByte c.src c.rd s.buf = p at *
+        obtain ⟨r, b⟩ := p
+        simp only at hr hcur hlb hbinv
+        subst hr
+        have hval : readByteBody c s =
+            (.ok x, checkEOS c (setLastRead { s with buf := b, position := s.position + 1 } .ok) false) := by
+          unfold readByteBody; rw [if_neg ht, if_neg hu, hp]
+        rw [hval, if_pos hlt]
+        rw [unreadByte_ok c _ ht (by simp) (by simpa using hlb) (by simp; omega)]
+      · have hnone : c.src[s.buf.cur]? = none := by rw [h.cur_eq]; simp; omega
+        obtain ⟨hr, _, _, _⟩ := heof hnone
+        generalize hp : bufReadByte c.src c.rd s.buf = p at *
+        obtain ⟨r, b⟩ := p
+        simp only at hr
+        subst hr
+        have hval : readByteBody c s =
+            (.eof, checkEOS c (setLastRead { s with buf := b } .eof) true) := by
+          unfold readByteBody; rw [if_neg ht, if_neg hu, hp]
+        rw [hval, if_neg hlt]
+        by_cases hpast : s.endOfStream = .past
+        · have hlr : (checkEOS c (setLastRead { s with buf := b } .eof) true).lastRead = .none := by
+            simp [checkEOS, setLastRead, hpast]
+          rw [unreadByte_of_none _ _ hlr, if_pos hpast]; rfl
+        · rw [if_neg hpast]
+          unfold unreadByte; rw [if_neg ht]
+          simp [checkEOS, setLastRead, hpast, unreadEOF]
+
 end PrologVerif.Stream
